@@ -57,7 +57,8 @@ def snapshot(tracks):
 def _same_loose(m, d):
     dd = dict(d)
     t = dd.pop('time')
-    why = M.same(m.copy(time=0), {**dd, 'time': 0})
+    from mido.frozen import thaw_message
+    why = M.same(thaw_message(m).copy(time=0), {**dd, 'time': 0})
     if why:
         return why
     if not (m.time == t):
@@ -68,6 +69,11 @@ def _same_loose(m, d):
 def check_merge(case):
     tracks_d = case['tracks']
     tracks = [mido.MidiTrack([M.to_mido(d) for d in tr]) for tr in tracks_d]
+    if case.get('frozen'):
+        from mido.frozen import freeze_message
+        k = case['frozen']
+        tracks = [mido.MidiTrack([freeze_message(m) if (i + ti) % k == 0 else m for i, m in enumerate(tr)])
+                  for ti, tr in enumerate(tracks)]
     before = snapshot(tracks)
     want = F.merge_model(tracks_d)
     out = []
@@ -110,7 +116,7 @@ def check_merge(case):
     if len(results) == 2 and list(results[False]) != list(results[True]):
         out.append(fail('skip-checks-disagree', 'results differ between skip_checks settings'))
     # the returned track belongs to the caller: editing it must not influence any later merge
-    if not out and case.get('poke') and results.get(False) is not None and len(results[False]):
+    if not out and case.get('poke') and not case.get('frozen') and results.get(False) is not None and len(results[False]):
         res = results[False]
         res[-1].time = res[-1].time + 480
         res[0].time = res[0].time + 7
@@ -126,7 +132,7 @@ def check_merge(case):
             out.append(fail('raises', f'merge after poking a result: {exc!r}', exc=exc_sig(exc)))
     # merging again after an edit of the inputs reflects the edit (nothing is remembered between calls)
     edit = case.get('edit')
-    if not out and edit and tracks_d and tracks_d[edit[0] % len(tracks_d)]:
+    if not out and edit and not case.get('frozen') and tracks_d and tracks_d[edit[0] % len(tracks_d)]:
         ti = edit[0] % len(tracks_d)
         mi = edit[1] % len(tracks_d[ti])
         tracks[ti][mi].time = tracks[ti][mi].time + edit[2]
@@ -202,6 +208,7 @@ def cases(draw):
     return {'tracks': tracks, 'entry': draw(st.sampled_from(['merge_tracks', 'merge_tracks', 'merged_track'])),
             'cont': draw(st.sampled_from(['list', 'list', 'tuple', 'gen', 'plain', 'iters', 'gens'])),
             'poke': draw(st.booleans()),
+            'frozen': draw(st.sampled_from([0, 0, 0, 1, 2, 3])),
             'edit': draw(st.one_of(st.none(), st.tuples(st.integers(0, 4), st.integers(0, 9), st.sampled_from([1, 5, 480])).map(list)))}
 
 
